@@ -470,8 +470,14 @@ def _r7_5_queue(ctx: Ctx, f: Func, rule: str, q: str):
             if lp:
                 it = lp[0].iter        # bonds_info[parent]
                 tv = norm(lp[0].target)
+                # locals of the loop body that merely name an element of the table entry are read as that element
+                al_ = {}
+                for s_ in ast.walk(lp[0]):
+                    if isinstance(s_, ast.Assign) and len(s_.targets) == 1 and isinstance(s_.targets[0], ast.Name) \
+                            and isinstance(s_.value, ast.Subscript) and norm(s_.value.value) == tv:
+                        al_[s_.targets[0].id] = norm(s_.value)
                 okq = isinstance(it, ast.Subscript) and norm(it.slice) == norm(p_) \
-                    and norm(c_) == "%s[0]" % tv and norm(l_) == "%s[1]" % tv and norm(it.value) == f.params[1]
+                    and al_.get(norm(c_), norm(c_)) == "%s[0]" % tv and al_.get(norm(l_), norm(l_)) == "%s[1]" % tv and norm(it.value) == f.params[1]
             ctx.ob(rule, f, cc, okq,
                    "queue entries are (positioned atom, bonded atom, tabulated length of that bond), taken from the "
                    "positioned atom's row of the bond table", node=cc)
@@ -638,6 +644,14 @@ def r7_4(ctx: Ctx, g: Func, f: Func, rule="R7.4"):
         scaled = isinstance(rdef, ast.BinOp) and isinstance(rdef.op, ast.Mult) and dirvar in (norm(rdef.left), norm(rdef.right)) \
             and any(isinstance(x, ast.Call) and "random" in norm(x.func) for x in ast.walk(rdef))
         okn = bool(normed) and scaled
+        if not okn:
+            # the unit vector may get a name of its own: u = direction / |direction| ; return u * <random scalar>
+            units = [norm(s.targets[0]) for s in body if isinstance(s, ast.Assign) and isinstance(s.targets[0], ast.Name)
+                     and isinstance(s.value, ast.BinOp) and isinstance(s.value.op, ast.Div) and norm(s.value.left) == dirvar
+                     and _is_norm_call(s.value.right) is not None and norm(_is_norm_call(s.value.right)) == dirvar]
+            okn = bool(units) and isinstance(rdef, ast.BinOp) and isinstance(rdef.op, ast.Mult) \
+                and (norm(rdef.left) in units or norm(rdef.right) in units) \
+                and any(isinstance(x, ast.Call) and "random" in norm(x.func) for x in ast.walk(rdef))
     ctx.ob(rule, g, rets[0] if rets else "result", okn,
            "the direction is normalised and multiplied by a random scalar (a scalar multiple stays perpendicular)",
            node=rets[0] if rets else g.node)
